@@ -177,6 +177,41 @@ def run(F, R, tier):
     R.check("R1", ok, "SM(): ckm(get_ckm_from_angles(defaults))", F.loc(ctor[0]) if ctor else "", "default CKM not from the parametrisation",
             key="R1|ctor")
 
+    # R1c: the angles handed to the parametrisation are finite on every path
+    Sw = Struct(gw)
+    Rw = Renderer(gw, resolve_locals=False)
+    asg = [n for n in walk(gw["body"]) if n.get("k") == "BinaryOperator" and n.get("op") == "=" and
+           strip_all(n["c"][0]).get("k") == "DeclRefExpr" and strip_all(n["c"][0]).get("rk") == "Var"]
+    n_guarded = 0
+    for a in asg:
+        var = strip_all(a["c"][0]).get("n", "").split("::")[-1]
+        gs = [(Rw.r(c), pol) for c, pol in [g_ for g_ in Sw.guards(a) if g_[0] != "switch"]]
+        if not gs:
+            continue
+        n_guarded += 1
+        conj_txt = []
+        for c_, pol in gs:
+            if not pol:
+                conj_txt.append("NOT " + c_)
+                continue
+            x = c_
+            # split a rendered conjunction
+            parts = re.findall(r"isfinite\([^&]*?\)\)?(?= &&|\)$|$)", x)
+            conj_txt.append(x)
+        txt = " && ".join(conj_txt)
+        rhs_dep = re.findall(r"V13conj", Rw.r(a["c"][1]))
+        fin_re = re.search(r"isfinite\(real\(V13conj\)\)", txt) and re.search(r"isfinite\(imag\(V13conj\)\)", txt)
+        fin_abs = re.search(r"isfinite\((abs|norm)\(V13conj\)\)", txt)
+        pos = [c_ for c_, pol in gs if pol]
+        only_fin = bool(pos) and all(re.match(r"^\(?(isfinite\(.*\))( && isfinite\(.*\))*\)?$", t_) for t_ in pos)
+        ok = (not rhs_dep) or ((fin_re or fin_abs) and only_fin)
+        R.check("R1", bool(ok), "%s assigned from V13conj only if it is finite [%s]" % (var, txt[:80]), F.loc(gw, a),
+                "%s = %s is guarded by `%s`, which does not exclude an infinite V13conj: a non-finite angle "
+                "reaches the parametrisation and the CKM matrix is NaN, not unitary" % (var, Rw.r(a["c"][1])[:40], txt[:100]),
+                key="R1|finite|" + var)
+    if n_guarded < 2:
+        R.soft_broken("R1c: guarded assignments of theta_13/delta not found")
+
     # ---- R2 range checks --------------------------------------------------------------
     R.rule("R2", "each Wolfenstein parameter is range-checked (|p| > 1 -> EInvalidInput) before its first use", 4)
     S = Struct(gw)
@@ -217,6 +252,19 @@ def run(F, R, tier):
     mw, mz, al = ("field", th, "mw"), ("field", th, "mz"), ("field", th, "alpha_em_mz")
     try:
         cw, sw, gY, g2, e, v_ = (T(x) for x in ("get_cw", "get_sw", "get_gY", "get_g2", "get_e_mz", "get_v"))
+        inputs = {"mw", "mz", "alpha_em_mz", "alpha_em_0", "alpha_s_mz"}
+        pure = True
+        for nm_, t_ in (("get_cw", cw), ("get_sw", sw), ("get_gY", gY), ("get_g2", g2), ("get_e_mz", e), ("get_v", v_)):
+            flds = {x[2] for x in subterms(t_) if x and x[0] == "field" and x[1] == th}
+            branches = [x for x in subterms(t_) if x and x[0] == "ite"]
+            if (flds - inputs) or branches:
+                pure = False
+                R.fail("R3", "SM::%s is a function of the SM inputs only" % nm_, "src/SM/SM.cpp",
+                       "SM::%s depends on %s%s: the defining relation cannot hold for every state/history" % (
+                           nm_, sorted(flds - inputs) or "", " through a state-dependent branch (%s)" % show(branches[0][1])[:80] if branches else ""),
+                       key="R3|pure|" + nm_)
+        if not pure:
+            raise NotPolynomial("derived quantities are not pure functions of the inputs")
         pi = None
         for k_, gl in F.globals.items():
             if gl["name"] == AN + "pi" and gl["file"] == "src/SM/SM.cpp" and "init" in gl:
@@ -239,7 +287,7 @@ def run(F, R, tier):
             R.check("R3", n_.is_zero(), label, "src/SM/SM.cpp", "identity does not hold for the getter definitions: residual %r" % n_,
                     key="R3|" + label)
     except NotPolynomial as ex:
-        R.broken("R3: %s" % ex)
+        R.soft_broken("R3: %s" % ex)
 
     # ---- R4 running masses ------------------------------------------------------------------
     R.rule("R4", "THDM::get_m{u,d,l}(scale): the running-mass routine replaces the third-generation mass under "
